@@ -66,7 +66,42 @@ func (m *Machine) floatCmp(op string, b *types.Basic, x, y *Term) *Term {
 			return mkBool(fx >= fy)
 		}
 	}
-	m.abort("floating-point comparison %s on symbolic operands is not encoded", op)
+	// exact IEEE-754 comparison over the bit patterns (no rounding is involved in comparing)
+	w := x.W
+	mbits := 52
+	if w == 32 {
+		mbits = 23
+	}
+	absMask := mkConst(w, (uint64(1)<<uint(w-1))-1)
+	expMask := mkConst(w, ((uint64(1)<<uint(w-1))-1)&^((uint64(1)<<uint(mbits))-1))
+	ax, ay := tBin("bvand", x, absMask), tBin("bvand", y, absMask)
+	nan := tOr(tCmp("bvugt", ax, expMask), tCmp("bvugt", ay, expMask))
+	zero := mkConst(w, 0)
+	bothZero := tAnd(tEq(ax, zero), tEq(ay, zero))
+	sx, sy := tCmp("bvugt", x, absMask), tCmp("bvugt", y, absMask)
+	eq := tAnd(tNot(nan), tOr(tEq(x, y), bothZero))
+	lt := func(sx, sy, ax, ay *Term) *Term {
+		// x < y for non-NaN operands
+		neg := tAnd(sx, tNot(sy))       // x negative, y positive: true unless both are zeros
+		pos := tAnd(tNot(sx), tNot(sy)) // both positive: by magnitude
+		both := tAnd(sx, sy)            // both negative: reversed magnitude
+		return tAnd(tNot(nan), tOr(tAnd(neg, tNot(bothZero)), tOr(tAnd(pos, tCmp("bvult", ax, ay)), tAnd(both, tCmp("bvugt", ax, ay)))))
+	}
+	switch op {
+	case "==":
+		return eq
+	case "!=":
+		return tNot(eq)
+	case "<":
+		return lt(sx, sy, ax, ay)
+	case "<=":
+		return tOr(lt(sx, sy, ax, ay), eq)
+	case ">":
+		return lt(sy, sx, ay, ax)
+	case ">=":
+		return tOr(lt(sy, sx, ay, ax), eq)
+	}
+	m.abort("floating-point comparison %s is not encoded", op)
 	return nil
 }
 
